@@ -167,15 +167,16 @@ class _DatasetFillerContext:
             current_progress.shard = self._get_new_shard(split=split)
             current_progress.written_examples = 0
 
-        # Update custom_metadata is needed
-        if custom_metadata:
-            # Store a copy: the caller may mutate or reuse the passed object.
-            current_progress.shard.shard_info.custom_metadata = copy.deepcopy(
-                custom_metadata)
-
         # Write the current example and update counters.
         current_progress.shard.write(values=values)
         current_progress.written_examples += 1
+
+        # Update custom_metadata if needed. Only after a successful write (a
+        # rejected write leaves no trace) and as a copy (the caller may mutate
+        # or reuse the passed object).
+        if custom_metadata:
+            current_progress.shard.shard_info.custom_metadata = copy.deepcopy(
+                custom_metadata)
 
         # We have updated the current progress.
         assert self._current_shards_progress[split] == current_progress
